@@ -57,6 +57,12 @@ func TestGotransFixtures(t *testing.T) {
 	add := func(name, args string, run func() string) {
 		cases[name] = append(cases[name], fixCase{args, run})
 	}
+	for _, s := range strs {
+		for _, n := range []int{0, 1, 2, 3, 4, 7} {
+			s, n := s, n
+			add("FallJoin", cs(s)+" "+cz(int64(n)), func() string { return cz(int64(gtfix.FallJoin(s, n))) })
+		}
+	}
 	for _, x := range ints {
 		x := x
 		add("Fall", cz(int64(x)), func() string { return cz(int64(gtfix.Fall(x))) })
